@@ -18,7 +18,7 @@ const sentinel = "verif: simplifier bounded-progress assertion failed"
 func init() {
 	core.Register(&core.Prop{
 		ID: "C13",
-		Rule: "case = one curve with 0..120 (400 thorough) pairwise-distinct vertices (incrementally built random simple lines checked by the exact simplicity test, monotone lines, zigzags, spirals, 'hook' lines whose end returns near the start, near-collinear runs, and unfiltered random lines for the termination/subsequence/tolerance clauses) and a tolerance from {0, 1e-12 d, U(0,d), >d, +Inf}, simplified as LineString and as member of MultiLineString / ring of Polygon / MultiPolygon; " +
+		Rule: "case = one curve with 0..120 (400 thorough) pairwise-distinct vertices (8%: with 1-3 later, non-adjacent copies of earlier vertices - spurs, pinches, inner loops - judged by searching for any admissible embedding; incrementally built random simple lines checked by the exact simplicity test, monotone lines, zigzags, spirals, 'hook' lines whose end returns near the start, near-collinear runs, and unfiltered random lines for the termination/subsequence/tolerance clauses) and a tolerance from {0, 1e-12 d, U(0,d), >d, +Inf}, simplified as LineString and as member of MultiLineString / ring of Polygon / MultiPolygon; " +
 			"monitors: a second high-volume phase of 'box walks' (6..40 vertices uniform in a box, exactly simple, 60% ending inside a pocket of three earlier consecutive vertices, tolerance U(0,0.4) of the box) aimed at multi-step back-off in one scan step; hooked step counter (output never longer than input, loop steps <= 4n^2+100) turning non-termination into a finite violation; output is an order-preserving subsequence keeping first and last vertex; every dropped vertex within tol(1+1e-12) of its replacing segment (extended precision); exact simplicity of the output when the input is exactly simple; input unmodified; members simplified independently; " +
 			"an evaluation is one Simplify call judged; non-trivial = simple input with >= 4 vertices from which at least one vertex was dropped; distinct by input hash",
 		Assumptions: []string{"'terminates' is decided as bounded progress on the hooked loops", "vertices pairwise distinct so that the subsequence match is unambiguous", "simplicity preservation is judged for open line strings that are simple by the exact test"},
@@ -37,7 +37,7 @@ func init() {
 		Setup: func(c *core.Ctx) { geom.VerifSimplifyHook = hook },
 		Floors: func(t string) map[string]int64 {
 			return map[string]int64{"len.0": 20, "len.1": 20, "len.2": 20, "len.3": 20, "simple_input.judged": 3000, "dropped_vertices.checked": 10000, "shape.hook": 500, "shape.spiral": 500,
-				"tol.zero": 500, "tol.inf": 500, "storage.members_share_one_backing_array": 1000, "boxwalk.simple_judged": 50000, "boxwalk.tail_returns_into_pocket": 15000, "boxwalk.vertices_dropped": 25000, "multi.members_independent": 500, "polygon.rings": 500, "hook.steps_seen": 10000}
+				"tol.zero": 500, "tol.inf": 500, "storage.members_share_one_backing_array": 1000, "revisit.judged": 500, "boxwalk.simple_judged": 50000, "boxwalk.tail_returns_into_pocket": 15000, "boxwalk.vertices_dropped": 25000, "multi.members_independent": 500, "polygon.rings": 500, "hook.steps_seen": 10000}
 		},
 	})
 }
@@ -362,6 +362,70 @@ func runBoxwalk(c *core.Ctx, idx int) {
 	judge(c, pts, res.out, tol, "boxwalk", "LineString", true, detail)
 }
 
+// judgeRevisit judges a curve in which a vertex value occurs more than once: the output must
+// admit SOME order-preserving embedding into the input that keeps the first and the last vertex
+// and puts every dropped vertex within the tolerance of the output segment replacing it.
+func judgeRevisit(c *core.Ctx, in, out []geom.Point, tol float64, detail map[string]interface{}) {
+	n, m := len(in), len(out)
+	if m == 0 || m > n {
+		c.Violate("not-subsequence:revisit", fmt.Sprintf("output has %d vertices for an input of %d", m, n), detail)
+		return
+	}
+	slack := 0.0
+	for _, p := range in {
+		slack = math.Max(slack, math.Max(math.Abs(p.X), math.Abs(p.Y)))
+	}
+	slack *= 64 * 1.2e-16
+	within := func(i, j int) bool { // all of in[i+1..j-1] within tol of segment in[i]-in[j]
+		if math.IsInf(tol, 1) {
+			return true
+		}
+		for k := i + 1; k < j; k++ {
+			if d := exact.DistPointSeg(gen.EP(in[k]), gen.EP(in[i]), gen.EP(in[j])); !(d <= tol*(1+1e-12)+slack) {
+				return false
+			}
+		}
+		return true
+	}
+	// plain[k][j] / good[k][j]: out[..k] embeds with out[k] at input index j (ignoring / respecting the tolerance)
+	plain := make([][]bool, m)
+	good := make([][]bool, m)
+	for k := range plain {
+		plain[k], good[k] = make([]bool, n), make([]bool, n)
+	}
+	if gen.BitsEqual(in[0], out[0]) {
+		plain[0][0], good[0][0] = true, true
+	}
+	for k := 1; k < m; k++ {
+		for j := k; j < n; j++ {
+			if !gen.BitsEqual(in[j], out[k]) {
+				continue
+			}
+			for i := k - 1; i < j; i++ {
+				if plain[k-1][i] {
+					plain[k][j] = true
+					if good[k-1][i] && !good[k][j] && within(i, j) {
+						good[k][j] = true
+					}
+				}
+			}
+		}
+	}
+	c.Count("revisit.judged")
+	switch {
+	case !plain[m-1][n-1]:
+		c.Violate("not-subsequence:revisit", "output is not an order-preserving subsequence of the input that keeps its first and last vertex", detail)
+	case !good[m-1][n-1]:
+		c.Violate("tolerance:revisit", fmt.Sprintf("no way of matching the output to the input leaves every dropped vertex within the tolerance %v of its replacing segment", tol), detail)
+	default:
+		if m < n {
+			h := core.NewHasher()
+			gen.HashGeom(h, geom.LineString(in))
+			c.Nontrivial(h.F64(tol).Sum())
+		}
+	}
+}
+
 func run(c *core.Ctx, idx int) {
 	if c.Phase == "boxwalks" {
 		runBoxwalk(c, idx)
@@ -380,6 +444,24 @@ func run(c *core.Ctx, idx int) {
 		n = r.IntRange(40, maxN)
 	}
 	curve, shape := genCurve(r, n)
+	revisit := false
+	if len(curve) >= 4 && r.Chance(0.08) {
+		// a line that comes back to one of its own vertices (a spur A-X-A, a pinch, an inner loop):
+		// 1-3 copies of earlier vertices inserted at later, non-adjacent positions
+		for k := r.IntRange(1, 3); k > 0; k-- {
+			a := r.Intn(len(curve) - 2)
+			b := r.IntRange(a+2, len(curve))
+			if (b < len(curve) && curve[b] == curve[a]) || curve[b-1] == curve[a] {
+				continue
+			}
+			curve = append(curve[:b:b], append([]geom.Point{curve[a]}, curve[b:]...)...)
+			revisit = true
+		}
+		if revisit {
+			shape = "revisit:" + shape
+			c.Count("shape.revisits_a_vertex")
+		}
+	}
 	n = len(curve)
 	if n <= 3 {
 		c.Count(fmt.Sprintf("len.%d", n))
@@ -428,6 +510,10 @@ func run(c *core.Ctx, idx int) {
 	}
 	if c.WantSample() && simpleIn && len(res.out) < n && n > 5 {
 		c.Sample(map[string]interface{}{"shape": shape, "vertices_in": n, "vertices_out": len(res.out), "tolerance": tol, "first_vertices": gen.Dump(geom.LineString(curve[:5]))})
+	}
+	if revisit {
+		judgeRevisit(c, curve, res.out, tol, detail)
+		return
 	}
 	judge(c, curve, res.out, tol, shape, "LineString", simpleIn, detail)
 
